@@ -18,12 +18,15 @@
 pub mod util;
 pub mod world;
 pub mod cmd_instr;
+pub mod cmd_joypad;
 
 fn main() {
   let args: Vec<String> = std::env::args().collect();
   let cmd = args.get(1).map(|s| s.as_str()).unwrap_or("");
   match cmd {
     "instr" => cmd_instr::run(&args[2..]),
+    "joypad" => cmd_joypad::run(&args[2..]),
+    "joypad-trace" => cmd_joypad::trace(&args[2..]),
     "version" => println!("gbv jit={}", cfg!(feature = "jit")),
     _ => { eprintln!("usage: gbv <command> ..."); std::process::exit(2); }
   }
